@@ -307,6 +307,7 @@ fn fail(prop: &str, check: &str, input: String, detail: String) -> ! {
 
 // ------------------------------------------------------------------------------------------------ C01 / C02 / C03
 fn check_npm(prop: &str, level: u32) {
+    check_any(prop);
     let vs = versions();
     let ks: Vec<K> = vs.iter().map(key).collect();
     for c in grid(level) {
@@ -351,11 +352,16 @@ fn gen_num(r: &mut Rng) -> u64 {
 }
 fn gen_pre(r: &mut Rng) -> Vec<Id> {
     let n = 1 + if r.chance(85) { r.below(3) } else { 3 + r.below(4) };
+    if r.chance(2) { let len = 60 + r.below(120) as usize; return vec![Id::A("q".repeat(len))]; }   // (node rejects versions longer than 256 characters; the crate has no such limit inside ranges: kept out of the search)
     (0..n).map(|_| if r.chance(45) { Id::N(if r.chance(80) { r.below(3) } else { *r.pick(&[10u64, 11, 4294967296, 900719925474100]) }) }
                    else { Id::A(r.pick(&["alpha", "beta", "rc", "a", "b", "x-y", "0a", "a0", "pre-1", "A", "Z9", "abcdefghijklmnopqrstuvwxyz0123456789", "a-b-c-d-e-f", "0123456789a", "X", "x", "v1"]).to_string()) }).collect()
 }
 /// a number spelled with an optional leading zero (loose mode)
-fn spell_num(r: &mut Rng, n: u64) -> String { if r.chance(12) { format!("0{}", n) } else { n.to_string() } }
+fn spell_num(r: &mut Rng, n: u64) -> String {
+    if r.chance(10) { format!("0{}", n) }
+    else if r.chance(3) { let w = 18 + r.below(12) as usize; format!("{:0>w$}", n, w = w) }     // loose: any number of leading zeros
+    else { n.to_string() }
+}
 struct GenPartial { text: String, p: Partial }
 fn gen_partial(r: &mut Rng) -> GenPartial {
     let wild = |r: &mut Rng| r.pick(&["x", "X", "*"]).to_string();
@@ -411,13 +417,13 @@ fn gen_alternative(r: &mut Rng) -> (String, Option<CSet>) {
         // the hyphen form needs plain partials: no `v`less restrictions, but a leading `v` is fine
         return (format!("{} - {}", f.text, t.text), Some(npm_hyphen(&f.p, &t.p)));
     }
-    if r.chance(4) { return (r.pick(&["foo", "bar baz", "#", "a|b"]).to_string(), None); }
+    if r.chance(4) { return (r.pick(&["foo", "bar baz", "#", "a|b", "V1.2.3", ">=V1", "1.2.3.4", "^V2", "1.2.3.", "1..2"]).to_string(), None); }
     let n = 1 + if r.chance(60) { 0 } else if r.chance(85) { 1 + r.below(3) } else { 4 + r.below(4) };
     let mut text = String::new();
     let mut cs: CSet = vec![];
     for i in 0..n {
         if i > 0 { text.push_str(*r.pick(&[" ", " ", " ", " ", " ", "  ", "    ", "\t", " \t "])); }
-        if r.chance(6) { text.push_str(*r.pick(&["foo ", "#1 ", "a|b "])); }
+        if r.chance(6) { text.push_str(*r.pick(&["foo ", "#1 ", "a|b ", "V1.2.3 ", ">=V1 ", "1.2.3.4 ", "~V1.2 "])); }
         let s = gen_simple(r);
         text.push_str(&s.text);
         cs.extend(s.cs);
@@ -500,7 +506,10 @@ fn hash_of(v: &Version) -> u64 { let mut h = DefaultHasher::new(); v.hash(&mut h
 /// the reference key of a version text `M.m.p[-pre][+build]`, built from the text itself (not from what the crate parsed)
 fn key_of_text(t: &str) -> K {
     let t = t.split('+').next().unwrap();
-    let (core, pre) = match t.find('-') { Some(i) => (&t[..i], Some(&t[i + 1..])), None => (t, None) };
+    // loose: the hyphen before the prerelease may be missing when the tag starts with a letter (`1.2.3alpha`)
+    let third_dot = t.match_indices('.').nth(1).map(|(i, _)| i + 1).unwrap();
+    let cut = t[third_dot..].find(|c: char| !c.is_ascii_digit()).map(|i| third_dot + i);
+    let (core, pre) = match cut { Some(i) => (&t[..i], Some(if t.as_bytes()[i] == b'-' { &t[i + 1..] } else { &t[i..] })), None => (t, None) };
     let n: Vec<u64> = core.split('.').map(|x| x.parse().unwrap()).collect();
     let pre = match pre {
         None => vec![],
@@ -512,6 +521,7 @@ fn order_texts() -> Vec<String> {
     let mut out = vec![];
     for core in ["0.0.0", "0.0.1", "0.1.0", "1.0.0", "1.0.1", "1.1.0", "1.1.1", "2.0.0", "2.0.1", "2.3.0", "10.0.0"] {
         for pre in ["", "-0", "-1", "-2", "-10", "-a", "-alpha", "-alpha.1", "-alpha.1.0", "-alpha.beta", "-beta", "-beta.2", "-beta.11", "-rc.1", "-rc.1a", "-rc.2", "-rc.10", "--", "-7", "-A", "-a-", "-1a", "-alpha.1a",
+                    "alpha", "rc1", "beta.2", "Alpha", "-Beta", "-RC.1", "-rc.1", "-SNAPSHOT", "-aLpHa", "-Z", "-z",
                     "--1", "-rc.-", "-rc.0-", "-01", "-rc.01", "-rc.900719925474100", "-rc.1000000000000000", "-rc.18446744073709551615", "-rc.18446744073709551616", "-900719925474099", "-900719925474100"] {
             for build in ["", "+b", "+build.5"] { out.push(format!("{}{}{}", core, pre, build)); }
         }
@@ -522,6 +532,7 @@ fn order_versions() -> Vec<Version> {
     let mut out = vec![];
     for core in ["0.0.0", "0.0.1", "0.1.0", "1.0.0", "1.0.1", "1.1.0", "1.1.1", "2.0.0", "2.0.1", "2.3.0", "10.0.0"] {
         for pre in ["", "-0", "-1", "-2", "-10", "-a", "-alpha", "-alpha.1", "-alpha.1.0", "-alpha.beta", "-beta", "-beta.2", "-beta.11", "-rc.1", "-rc.1a", "-rc.2", "-rc.10", "--", "-7", "-A", "-a-", "-1a", "-alpha.1a",
+                    "alpha", "rc1", "beta.2", "Alpha", "-Beta", "-RC.1", "-rc.1", "-SNAPSHOT", "-aLpHa", "-Z", "-z",
                     "--1", "-rc.-", "-rc.0-", "-01", "-rc.01", "-rc.900719925474100", "-rc.1000000000000000", "-rc.18446744073709551615", "-rc.18446744073709551616", "-900719925474099", "-900719925474100"] {
             for build in ["", "+b", "+build.5"] {
                 if let Ok(v) = Version::parse(format!("{}{}{}", core, pre, build)) { out.push(v); }
@@ -679,17 +690,29 @@ fn check_setops(prop: &str) {
 }
 
 // ------------------------------------------------------------------------------------------------ C11 / C14
-fn check_c11() {
+fn check_c11(seed: u64) {
     let vs = versions();
     let mut cases = grid(0);
     for t in [">1.0.0 <1.0.1", ">1.0.0 <1.0.1-5", ">0.0.0 <0.0.1-alpha || >=3.0.0", "<0.0.0-0 || >=2.0.0", ">1.0.0 <=1.0.1-0", ">=0.0.0-0 || <2.0.0", "<2.0.0 || >=0.0.0-0", "* || >0.0.0-alpha", ">1.0.0-alpha <1.0.1-5", ">1.2.3-beta", ">1.2.3-beta <1.2.3-beta.1", ">=2.0.0 || >=1.0.0"] {
         cases.push(Case { text: t.into(), rr: vec![] });
     }
+    let mut rng = Rng(0x2545F4914F6CDD1D ^ seed.wrapping_add(7).wrapping_mul(0x9E3779B97F4A7C15));
+    for _ in 0..1500 { let c = gen_range(&mut rng); cases.push(c); }
     for c in cases {
         let r = match Range::parse(&c.text) { Ok(r) => r, Err(_) => continue };
         match r.min_version() {
             Some(m) => {
                 if !r.satisfies(&m) { fail("C11", "min_version satisfies the range", format!("range `{}`", c.text), format!("min_version `{}`", m)); }
+                // ... where "the range" is what the text denotes (npm's reading), when the case carries one
+                if !c.rr.is_empty() && m.major <= 900719925474099 && m.minor <= 900719925474099 && m.patch <= 900719925474099 && !ref_sat(&c.rr, &key(&m)) {
+                    fail("C11", "min_version satisfies the range as written", format!("range `{}`", c.text), format!("min_version `{}`", m));
+                }
+                if !c.rr.is_empty() {
+                    let mut rr2 = Rng(1);
+                    if let Some(k) = probe_versions(&c.rr, &mut rr2).iter().find(|k| ref_sat(&c.rr, k) && kcmp(k, &key(&m)) == Ordering::Less) {
+                        fail("C11", "no lower version satisfies the range as written", format!("range `{}`", c.text), format!("min_version `{}` but `{}` satisfies", m, fmt_key(k)));
+                    }
+                }
                 let mut cands: Vec<Version> = vs.clone();
                 // versions just below m
                 let mut below = m.clone();
@@ -701,7 +724,16 @@ fn check_c11() {
         }
     }
 }
-fn check_c14() {
+fn check_any(prop: &str) {
+    // Range::any() is `*`: every release, no prerelease
+    let any = Range::any();
+    for v in versions() {
+        if any.satisfies(&v) != v.pre_release.is_empty() { fail(prop, "Range::any() admits exactly the releases (it is `*`)", format!("version `{}`", v), format!("satisfies = {}", any.satisfies(&v))); }
+    }
+}
+fn check_c14(seed: u64) {
+    check_any("C14");
+    { let any = Range::any(); let l = vec![Version::parse("0.0.0-alpha").unwrap(), Version::parse("0.1.0-rc.1").unwrap()]; if any.max_satisfying(&l).is_some() || any.min_satisfying(&l).is_some() { fail("C14", "never selects a prerelease the range does not admit", "Range::any() on [0.0.0-alpha, 0.1.0-rc.1]".into(), String::new()); } }
     let pool: Vec<Version> = ["1.2.3", "1.2.3-beta.2", "1.2.3-alpha", "1.4.2", "2.3.1", "2.0.0-rc.1", "2.0.0", "1.2.3+build", "0.5.0", "1.2.4", "3.0.0-0", "1.0.0"].iter().map(|s| Version::parse(s).unwrap()).collect();
     let mut lists: Vec<Vec<Version>> = vec![vec![]];
     for a in &pool { lists.push(vec![a.clone()]); for b in &pool { lists.push(vec![a.clone(), b.clone()]); } }
@@ -710,11 +742,14 @@ fn check_c14() {
     let mut texts: Vec<String> = ["^2 || >=3", ">=1.2.3-beta", "1.2", "~1.2.3", "*", ">=1.0.0 <2.0.0", "<=1.0.0", "<2.0.0-rc.1", "1.2.3 || >4", "<=2.0.0-rc.1", "<1.2.3", ">=1.2.3 <2.0.0", "1.x", "1.2.3 - 2", ">1.0.0 <=1.2.3", "^1.2"].iter().map(|s| s.to_string()).collect();
     // comparator lists of three (a contradictory prefix followed by something else), every 7th of the grid
     texts.extend(g.iter().filter(|c| c.text.matches(' ').count() == 2 && !c.text.contains(" - ") && !c.text.contains("||")).step_by(7).take(120).map(|c| c.text.clone()));
+    let mut rng = Rng(0x2545F4914F6CDD1D ^ seed.wrapping_add(3).wrapping_mul(0x9E3779B97F4A7C15));
+    let mut g = g;
+    for _ in 0..400 { let c = gen_range(&mut rng); texts.push(c.text.clone()); g.push(c); }
     for t in &texts {
         let t = t.as_str();
         let c = match g.iter().find(|c| c.text == t) { Some(c) => c, None => continue };
         let r = match Range::parse(t) { Ok(r) => r, Err(_) => continue };
-        for l in lists.iter().take(if t.matches(' ').count() == 2 { 160 } else { usize::MAX }) {
+        for l in lists.iter().take(if t.matches(' ').count() == 2 || c.text.len() > 24 { 160 } else { usize::MAX }) {
             for (which, got) in [("max", r.max_satisfying(l)), ("min", r.min_satisfying(l))] {
                 // "satisfies" is npm's reading of the range text (and must agree with the crate's own answer)
                 let sats: Vec<&Version> = l.iter().filter(|v| ref_sat(&c.rr, &key(v))).collect();
@@ -753,6 +788,7 @@ fn check_c06_strings() {
         frontier = next;
     }
     for n in [255usize, 256, 257, 300] {
+        for tail in ["\r\n", "  ", " \n", "\t\t", " \r\n ", "\n", "\n\n  "] { all.push(format!("1.2.3-{}{}", "a".repeat(n), tail)); all.push(format!("{}{}", "9".repeat(n), tail)); }
         all.push("1".repeat(n)); all.push(format!("1.2.3-{}", "a".repeat(n))); all.push(format!("{}\u{e9}", "a".repeat(n))); all.push(format!("1.2.3\n{}", "b".repeat(n)));
         all.push(format!("{} || {}", ">=1.2.3 ".repeat(n / 8), "x".repeat(n)));
     }
@@ -768,8 +804,27 @@ fn check_c06_strings() {
         if r.is_err() { fail("C06", "parse or an accessor of the returned error panics", format!("{:?}", t), String::new()); }
     }
 }
+/// "in time roughly linear in the input length": long inputs of every token class must parse within a generous budget
+/// (the unmodified code needs a few milliseconds for each of them in this build)
+fn check_c06_time() {
+    let n = 120000;
+    let inputs: Vec<String> = vec![
+        format!("1.2.3{}", " ".repeat(n)), " ".repeat(n), "\t".repeat(n), format!("1.2.3 ||{}", " ".repeat(n)), format!("{}1.2.3", " ".repeat(n)), format!("1.2.3{}>=2", " ".repeat(n)),
+        format!("^{}1.2.3", " ".repeat(n)), "a".repeat(n), "1".repeat(n), "1.".repeat(n / 2), "|".repeat(n), "||".repeat(n / 2), "1.2.3 ".repeat(n / 6), ">=1.2.3 <2.0.0 || ".repeat(n / 18),
+        format!("1.2.3-{}", "a.".repeat(n / 2)), format!("1.2.3-{}", "-".repeat(n)), "x ".repeat(n / 2), "1 - 2 ".repeat(n / 6), "~>".repeat(n / 2), format!("1.2.3+{}", "b.".repeat(n / 2)),
+    ];
+    for t in inputs {
+        let t2 = t.clone();
+        let (tx, rx) = std::sync::mpsc::channel();
+        std::thread::spawn(move || { let _ = Range::parse(&t2); let _ = Version::parse(&t2); let _ = tx.send(()); });
+        if rx.recv_timeout(std::time::Duration::from_secs(8)).is_err() {
+            fail("C06", "parsing takes time roughly linear in the input length", format!("{:?}... ({} bytes)", &t[..40.min(t.len())], t.len()), "did not finish within 8 s (the unmodified code needs milliseconds)".into());
+        }
+    }
+}
 fn check_c06() {
     check_c06_strings();
+    check_c06_time();
     let mut texts: Vec<String> = grid(0).into_iter().map(|c| c.text).collect();
     texts.truncate(700);
     for t in ["2.1 - 3.0 || <2.3.2 <1.0 =3.2.1-0", "=3.1.0-0", "<=1", "<=1.x", "<=1.*.*", "<=900719925474099", ">=900719925474099.900719925474099.900719925474099", "<1.0.0-alpha", ">=1.0.0-alpha || >1.0.0-alpha"] { texts.push(t.to_string()); }
@@ -831,8 +886,8 @@ fn main() {
         "C04" => check_c04(),
         "C16" => check_c16(),
         "C07" | "C08" | "C09" | "C10" | "C15" => check_setops(prop),
-        "C11" => check_c11(),
-        "C14" => check_c14(),
+        "C11" => check_c11(seed),
+        "C14" => check_c14(seed),
         "C06" => check_c06(),
         "C18" => check_c18(),
         _ => { eprintln!("no witness search for {}", prop); std::process::exit(3); }
